@@ -9,10 +9,10 @@ TRUSTED_COMMON = [
     "the Go code is modelled, not verified: theorems are about the Gallina models; the correspondence run ties model to code on the generated cases only",
 ]
 
-HOOK_COMMITS = ["7db9398"]
+HOOK_COMMITS = ["7db9398", "e7bad6e"]
 GEN_FILES = ["MQTables_gen.v", "JpegTables_gen.v", "Facts_gen.v", "HtTables_gen.v", "T1Tables_gen.v"]
 NOT_READY = set()   # Props present but suites not yet registered in cmd/vh
-HOOK_PROPS = {"C04", "C05", "C19"}   # properties with hook-based suites in harness/cmd/vhk
+HOOK_PROPS = {"C04", "C05", "C19", "C08"}   # properties with hook-based suites in harness/cmd/vhk
 NOTES = "All checks: bin/check <id>. Level proof = Coq theorems about hand-written Gallina models + regenerated tables/facts, tied to /repo by a correspondence run on every check; an implementation-side oracle searches for failing inputs. See DESIGN.md."
 
 PROPS = {}
@@ -29,25 +29,25 @@ prop("C01", design_ref="DESIGN.md 5 (C01), Corrections",
      level_note=COMMON_NOTE + " bytes.Buffer / binary.Write assumed to append.",
      trusted=["bytes.Buffer/binary.Write modelled as list append"])
 prop("C02", design_ref="DESIGN.md 5 (C02), Corrections",
-     level_text="Byte-exact model of jpeg/lossless and lossless14sv1 (predictors, edge rule, category coder, optimal Huffman builder, canonical codes, uint32 bit writer/reader with stuffing, markers, decoder marker loop, Build, bit-serial decode). Proved: category coder over all 65536 differences, modulo-2^16 reconstruction for every prediction, Huffman prefix decoding for any valid table, min/max/valptr decoder = canonical decoder, stuffing round trip, Build never panics, whole-image round trip for predictors 0-7 and SV1 with geometry. Partial: the round trip carries the hypothesis that the table BuildOptimalHuffmanTable returns is a valid covering table (C02_build_table_ok is stated, not proved); the harness checks it on every DHT the Go encoder emits.",
+     level_text="Complete at byte level: model of jpeg/lossless and lossless14sv1 (predictors, T.81 edge rule, category coder, optimal Huffman builder incl. length limiting, canonical codes, uint32 bit writer/reader with stuffing, markers, decoder marker loop, Build, bit-serial decode). Proved for every image, precision 2..16, predictors 0-7 and SV1, 1 and 3 components: decode(encode(img)) = img with geometry; category coder over all 65536 differences; modulo-2^16 reconstruction; the table the optimal builder returns is a valid covering table for the encoders' histograms (C02_build_table_ok) and the histogram step cannot index out of range for ANY frequency vector (C02_build_count_sizes_ok, defect F48); Huffman prefix decoding; min/max/valptr decoder = canonical decoder; stuffing round trip; Build never panics. Not proved: totality of the length-limiting loop for arbitrary (non-encoder) frequency vectors deeper than the encoders can produce (stated).",
      level_note=COMMON_NOTE)
 prop("C03", design_ref="DESIGN.md 5 (C03), Corrections",
      level_text="Complete at byte level: model of jpegls/lossless reproduces the Go encoder byte for byte; proved for every precision 2..16, 1 and 3 components, every image: decode(encode(img)) = img with geometry (through marker parsing and scan extraction), encoder totality, Golomb / run / run-interruption round trips, per-sample exactness with identical context updates, the as-coded 32-bit Golomb writer = bit-list packer, no-marker property.",
      level_note=COMMON_NOTE + " GolombReader's 64-bit cache is modelled as a bit list (tied by the byte-exact correspondence).")
 prop("C04", design_ref="DESIGN.md 5 (C04), Corrections",
-     level_text="Partial by design: every arithmetic/geometry stage is modelled and proved for unbounded sizes (sample codec and pixel (de)interleaving, RCT, 5/3 DWT all sizes/levels/parities, band partition = DWT split, code-block partition, subband extraction/assembly) and the entropy stages by component theorems (MQ round trip unbounded, T1 lockstep unbounded, packet-header bit I/O no-marker); the T2 packet layer and rate control are not modelled, so the composition is not one end-to-end theorem: the round trip over the property's configuration space is decided by the implementation-side oracle (700 / 12000 configurations per run plus a corpus of earlier failures).",
+     level_text="Every stage has a model and unbounded theorems: sample codec and pixel (de)interleaving, RCT, 5/3 DWT (all sizes/levels/parities/origins), band partition = DWT split, code-block partition, subband extraction/assembly, MQ coder round trip, T1 symbol-level lockstep, and the whole tier-2 packet layer (bit I/O with stuffing incl. the header-ending-in-0xFF case, tag trees for any grid and any query interleaving, pass-count / comma / Lblock codes, packet headers over any layer schedule incl. empty bands, all five progression orders, per-block data gathering: EncodePackets then DecodePackets delivers every block's bytes and pass count). Partial: the stages are not composed into ONE end-to-end theorem (T1 byte-level composition and the agreement of the encoder's precinct/code-block indexing with the decoder's are stated hypotheses of the T2 theorem), and rate control is outside the model; the round trip over the property's configuration space is therefore also decided by the implementation-side oracle (700 / 12000 configurations per run incl. many-packet and many-layer classes plus a corpus of earlier failures).",
      level_note=COMMON_NOTE + " Hook-based correspondence (build tag verif) for geometry functions.")
 prop("C05", design_ref="DESIGN.md 5 (C05), Corrections",
      level_text="Proved: for any block with non-decreasing pass rates and any monotone allocation the layers concatenate to the complete code-block data and the last layer holds all passes (both finalisers); for ANY allocation the last layer is complete; every parameter object in the property's domain maps (Validate + configureLosslessEncodeParams + initRDLayerConfig) to lossless with either one untruncated layer or >= 2 layers with the lossless layer forced. Monotonicity of the real allocators and rates_ok are checked at run time through hooks. End to end decided by the codec round-trip oracle over every rate-control path.",
      level_note=COMMON_NOTE + " Rate-distortion optimiser is an arbitrary allocation in the theorem.")
 prop("C06", design_ref="DESIGN.md 5 (C06), Corrections",
-     level_text="Partial: MEL round trip (both coder pairs, any event list), UVLC and VLC exhaustive over regenerated tables, Scup, level clamp, Kmax sufficiency and encoder/packet/decoder consistency for every precision/level/band are proved; the HT cleanup pass as a whole (quad contexts, MagSgn exponent prediction) is NOT modelled, so the round trip and the 14 third-party fixtures are decided by the implementation-side oracle.",
+     level_text="Partial: MEL round trip (both coder pairs, any event list), UVLC and VLC exhaustive over regenerated tables, Scup, level clamp, Kmax sufficiency and encoder/packet/decoder consistency for every precision/level/band are proved. The HT cleanup block coder (the whole HT block coder: the lossless path emits cleanup passes only) now has a byte-exact Gallina model (encoder and decoder, three bit streams with their stuffing rules, quad contexts, exponent predictor, UVLC pair rule, segment assembly) tied to the Go coder on every run; its round-trip theorem is in progress (see Props/C06_block.v when present), so the round trip and the 14 third-party fixtures are still decided by the implementation-side oracle.",
      level_note=COMMON_NOTE)
 prop("C07", design_ref="DESIGN.md 5 (C07), Corrections",
      level_text="Complete at byte level: for every precision, every NEAR in range and every image, decode(encode) is within NEAR, in range, reports NEAR and geometry; NEAR = 0 exact; encoder and decoder reconstructions coincide; byte-exact model of jpegls/nearlossless.",
      level_note=COMMON_NOTE)
 prop("C08", design_ref="DESIGN.md 5 (C08), Corrections",
-     level_text="Partial: for ALL byte strings the modelled header paths (both JPEG-LS decoders, jpeg/lossless, SV1, baseline up to the first block, the JPEG 2000 main header, tile-part parser and tile assembler, RLE with arbitrary FrameInfo, Huffman Build) never panic and never run out of fuel; MQ decoder and raw reader never read out of bounds for any data and any interleaving. Entropy decoders' inner loops, T2 and tile decoding are searched (about 130000 mutated streams per run in child processes), not proved.",
+     level_text="Proved for ALL byte strings: the header/segment paths of every decoder (both JPEG-LS decoders, jpeg/lossless, SV1, baseline up to the first block, the JPEG 2000 main header, tile-part parser and tile assembler, RLE with arbitrary FrameInfo, Huffman Build) never panic and never run out of fuel; the complete JPEG-LS lossless and near-lossless decoders incl. the as-coded Golomb reader are total (C08_jls_*: Ok or Err for any bytes, index-explicit twin = model); the JPEG 2000 packet parser, tag-tree decoders, packet body extraction and all five packet loops are total for any bytes and geometry tables (C08_t2_*); MQ decoder and raw reader never read out of bounds. Searched, not proved: JPEG Huffman entropy loops, T1 passes, HT block decoder, tile decoding glue (about 170000 mutated streams per run in child processes incl. 45 paired-field mutator classes).",
      level_note=COMMON_NOTE + " Child processes with watchdog; a fatal abort counts as failure.")
 prop("C09", design_ref="DESIGN.md 5 (C09), Corrections",
      level_text="Partial: proved for all byte strings that every modelled parser loop consumes input (fuel = input length suffices) and that every allocation request is bounded by c*S + 2*len + const with S the size declared by the first frame header of the stream (the same walker the oracle uses); RLE allocation <= 15*65535^2+1. Wall time and heap are measured per decode in child processes (10 s, 512 MiB + 64*S); the Go runtime is not modelled.",
@@ -66,7 +66,7 @@ prop("C13", design_ref="DESIGN.md 5 (C13), Corrections",
      level_text="Proved: the code's prediction is the T.81 H.1.2.1 rule; Annex C codes = BuildHuffmanCodes; model encoder and an independent T.81 encoder emit identical bytes for predictors 1-7; the independent T.81 decoder returns the exact source from the library encoders' streams; the library decoders recover the source from T.81-encoder streams for any predictor and any valid covering table in the single-table configuration. Arbitrary Td assignment / DHT placement / extra segments are stated and exercised by the cross-decoding runs only.",
      level_note=COMMON_NOTE)
 prop("C14", design_ref="DESIGN.md 5 (C14), Corrections",
-     level_text="Proved: coded parameters = T.87 formulas over the whole (P,NEAR) domain; lossless = near(0) as functions on whole images; both cross-decoding directions; H.3 vector; symbol-level round trips of the independent T.87 decoder against the coded encoder (Golomb, regular sample, run length, run interruption). Partial: whole-stream agreement of the independent T.87 decoder with the library decoder is a stated Definition with building-block lemmas; the extracted T.87 decoder is run on every generated stream.",
+     level_text="Complete: coded parameters = T.87 formulas over the whole (P,NEAR) domain; lossless = near(0) as functions on whole images; both cross-decoding directions; H.3 vector; and the whole-stream theorem C14_t87_decoder_agrees: for every stream the library encoders emit (P 2..16, NEAR in range, 1 component and 3 sample-interleaved components, any image) the independent decoder written from T.87 Annex A/C returns exactly the samples the library decoder returns (lossless: the source). The extracted T.87 decoder is also run on every generated stream.",
      level_note=COMMON_NOTE)
 prop("C15", design_ref="DESIGN.md 5 (C15), Corrections",
      level_text="Theorem content: block-grid and pixel-read correctness for every sampling factor and size, restart-interval bookkeeping (segments split at RSTn, MCU k uses interval k/Ri, DC reset), standard Huffman table validity, zig-zag. The agreement with image/jpeg and a reference encoder compares two implementations and is labelled as such (oracle).",
